@@ -646,6 +646,26 @@ fn regress_tier(p: &Prop, obs: &mut Obs, out: &mut Vec<(String, Failure)>) -> u6
             }
         }
     }
+    // canonical inputs of the open findings of this property: must still be attributed
+    for f in &findings().open {
+        if f.property != p.id || f.input.is_null() {
+            continue;
+        }
+        n += 1;
+        let before = obs.known.get(&f.id).copied().unwrap_or(0);
+        let r = guarded(|| direct(&f.input, obs)).unwrap_or_else(|p| Err(Failure::new(format!("panic: {}", p), f.input.clone())));
+        match r {
+            Err(mut e) => {
+                e.msg = format!("canonical input of known finding {} fails in a way the finding does not explain: {}", f.id, e.msg);
+                out.push(("regress".to_string(), e));
+            }
+            Ok(()) => {
+                if obs.known.get(&f.id).copied().unwrap_or(0) == before {
+                    eprintln!("note: known finding {} ({}) no longer reproduces on its canonical input; KNOWN_FINDINGS.txt may be stale", f.id, p.id);
+                }
+            }
+        }
+    }
     n
 }
 
